@@ -913,6 +913,7 @@ func (ro *RedisOutput) sendCmdsBatch(replayWait usync.WaitCloser, conn client.Re
 	defer updateCpTicker.Stop()
 
 	cpInDbs := make(map[int]struct{})
+	connDb := 0 // database selected on conn, a new connection starts in db 0
 
 	// transaction : call sendFunc when command is "exec", never break down a transaction
 	// non-transaction : call sendFunc when queue is full or ticker is delivered
@@ -999,12 +1000,17 @@ func (ro *RedisOutput) sendCmdsBatch(replayWait usync.WaitCloser, conn client.Re
 
 		if shouldUpdateCP {
 			if ro.cfg.EnableResumeFromBreakPoint {
-				if len(cmdQueue) > 0 {
-					lastCmd := cmdQueue[len(cmdQueue)-1]
-					if _, ok := cpInDbs[lastCmd.Db]; !ok {
-						cpInDbs[lastCmd.Db] = struct{}{}
-						batcher.Put("hset", checkpointKv.Key, checkpointKv.RunIdKey(), runId, checkpointKv.VersionKey(), config.Version)
+				// the checkpoint lands in the database the connection is in after the queued commands,
+				// that database needs the run id fields, otherwise the offset is useless on restart
+				cpDb := connDb
+				for _, ce := range cmdQueue {
+					if ce.Cmd == "select" {
+						cpDb = ce.Db
 					}
+				}
+				if _, ok := cpInDbs[cpDb]; !ok {
+					cpInDbs[cpDb] = struct{}{}
+					batcher.Put("hset", checkpointKv.Key, checkpointKv.RunIdKey(), runId, checkpointKv.VersionKey(), config.Version)
 				}
 				batcher.Put("hset", checkpointKv.Key, checkpointKv.OffsetKey(), lastOffset)
 			} else {
@@ -1060,6 +1066,11 @@ func (ro *RedisOutput) sendCmdsBatch(replayWait usync.WaitCloser, conn client.Re
 			ackOffsetGauge.Set(float64(lastOffset), ro.cfg.InputName)
 		}
 
+		for _, ce := range cmdQueue {
+			if ce.Cmd == "select" {
+				connDb = ce.Db
+			}
+		}
 		if uint(len(cmdQueue)) > ro.cfg.BatchCmdCount*2 { // avoid occuping huge memory
 			cmdQueue = make([]cmdExecution, 0, ro.cfg.BatchCmdCount+1)
 		} else {
